@@ -120,11 +120,11 @@ CLAIMED["C17"] = dict(
 )
 
 CLAIMED["C18"] = dict(
-    category="translation_validation",
-    technique="per-program validation: generated derived struct/enum definitions and values are compiled by the real compiler, the real Go AST is executed by the Coq Go semantics (Sem/GoSem.v, with its strconv.Quote model for %q) inside coqc, and the printed to_string / to_json are compared with the documented rendering and decoded by a JSON parser back to the value; definitions the derive cannot handle must give a diagnostic or working code",
-    text="1-4 definitions per program with 0-4 fields/variants over all integer types, bool, string, unit and earlier/recursive derived types, field names incl. tag, fields, to_json, to_string; values with quotes, backslashes, line breaks, JSON syntax and control characters in strings. to_string must equal Name { f: v } / Enum::Variant(v); to_json must be well-formed JSON that decodes to the value with an object per struct and tag/fields per variant (duplicate keys rejected). 13 unsupported or hostile definitions (generic, Vec/tuple/Ref/function fields, fields named like helpers, self). No theorem about derive::expand.",
+    technique="Coq proof that a type-directed JSON decoder reads the text written by the model of derive(ToJson) (object per struct, tag/fields per variant, strings through the %q model of Sem/GoSem.v) back to the value, for all definitions and values; the encoder model is compared byte for byte with what the real compiled program prints (real Go AST executed by Sem/GoSem.v) and the Coq decoder is run on the real text, inside coqc; to_string and JSON well-formedness (Python json) are evaluated on the real output",
+    text="to_json_decodes_back_to_the_value (no axioms): for all struct/enum definitions with distinct quote-free variant names, all values with JSON-safe strings (printable ASCII and \\b \\t \\n \\f \\r) and all continuations not starting with a digit, dec (enc v ++ rest) = (v, rest); control characters are a refutation example and a known finding. "
+         "Every run: 1-4 derived definitions per program (all integer types, bool, string, unit, nested and recursive types, field names like tag/fields/to_json), 3-6 values each; the model must print exactly the real text, the Coq decoder must recover the value from the real text, to_string must equal the documented rendering, Python's json must accept and decode the text; 13 unsupported or hostile definitions must give a diagnostic or working code.",
     design_ref="DESIGN.md §4 C18",
-    note=TRUST + " Python's json module is the JSON oracle; non-ASCII strings are outside the Go model's Quote; control characters in strings are a known finding (json_escape_string is %q).",
+    note=TRUST + " Integers are modelled as their decimal spelling (that the spelling is the number is C10's theorem); derive(ToString) is checked on outputs only; non-ASCII strings are outside the Go model's Quote.",
 )
 
 CLAIMED["C11"] = dict(
